@@ -766,7 +766,10 @@ func (c11) Run(c Case) Result {
 			if r.per > 0 {
 				for _, cc := range cs {
 					for _, h := range cc.open {
-						if h.queued > r.per+inhand {
+						if r.pkg == "t" && h.queued >= r.per {
+							// repaired tcpassembly: after the call fewer than the limit (C11_t_limit)
+							fail("C11:limit", fmt.Sprintf("tcpassembly per-connection: %d pages queued after the call, limit %d", h.queued, r.per))
+						} else if h.queued > r.per+inhand {
 							fail("C11:limit", fmt.Sprintf("per-connection: %d pages queued, limit %d, packet in hand %d pages, multipage=%d", h.queued, r.per, inhand, c11b(multipage)))
 						}
 					}
@@ -777,7 +780,9 @@ func (c11) Run(c Case) Result {
 				for _, cc := range cs {
 					q += cc.queued
 				}
-				if q > r.tot+inhand {
+				if r.pkg == "t" && used >= r.tot {
+					fail("C11:limit", fmt.Sprintf("tcpassembly total: %d pages in use after the call, limit %d", used, r.tot))
+				} else if q > r.tot+inhand {
 					fail("C11:limit", fmt.Sprintf("total: %d pages queued, limit %d, packet in hand %d pages, multipage=%d", q, r.tot, inhand, c11b(multipage)))
 				}
 			}
